@@ -256,6 +256,25 @@ def one_case(dbx, rng, src_dec, long_lived, d, c, acc, label):
                     elif r2 is None or (r2.source, r2.priority) != (m2.source, m2.priority):
                         acc.violation("format-roundtrip-header-differ", f"{d.id} {fmt}: the same payload from source {m2.source} priority {m2.priority} came back as "
                                       f"{None if r2 is None else (r2.source, r2.priority)}", w)
+                # the same packets on a long-lived decoder that carries a manufacturer filter naming somebody else, after the sender
+                # announced itself with a NAME whose sub-fields are all 'not available' (there is no manufacturer to filter by)
+                if fmt != "actisense" and r is not None and acc.evaluations % 3 == 0:
+                    fd_ = long_lived.setdefault("filtered-" + fmt, NMEA2000Decoder(exclude_manufacturer_code=["Garmin"]) if fmt != "yd" else NMEA2000Decoder(include_manufacturer_code=["Garmin"]))
+                    try:
+                        decode_packets(fmt, {"ebyte": [wire.ebyte_frame(wire.can_id(6, 60928, src, 255), b"\xff" * 8)], "usb": [wire.usb_frame(wire.can_id(6, 60928, src, 255), b"\xff" * 8)],
+                                             "yd": [wire.yd_line(wire.can_id(6, 60928, src, 255), b"\xff" * 8).split(" ", 2)[2].encode()]}[fmt], fd_)
+                    except Exception:  # noqa: BLE001
+                        pass
+                    try:
+                        r_f = decode_packets(fmt, pk, fd_)
+                        e_f = None
+                    except Exception as e_:  # noqa: BLE001
+                        r_f, e_f = None, e_
+                    acc.count("packets_decoded_under_a_manufacturer_filter_after_an_all_not_available_claim")
+                    if r_f is None or project.msg_proj(r_f, with_iso=False) != project.msg_proj(r, with_iso=False):
+                        acc.violation("own-packets-rejected:manufacturer-filter-and-nameless-sender", f"{d.id} {fmt}: a decoder with a manufacturer filter (naming somebody else) "
+                                      f"{'raised ' + type(e_f).__name__ + ': ' + str(e_f) if e_f else 'returned nothing / something else'} for the encoder's packets after the sender "
+                                      f"claimed its address with an all-'not available' NAME", w)
                 # the same packets on a decoder that hears other devices claim and re-claim addresses between them (the
                 # destination of the transfer among them)
                 if fmt != "actisense" and len(pk) > 1 and r is not None:
